@@ -821,6 +821,7 @@ func (e *Engine) checkCallAsserts(fc *fnCtx, st *State, c *ssa.CallCommon, instr
 	for _, cl := range fc.contract.Asserts[key] {
 		env := e.callSiteEnv(fc, st)
 		env.curBlock = instr.Block()
+		env.at = pos
 		f, okc := e.clauseTerm(env, cl)
 		if !okc {
 			continue
